@@ -110,7 +110,7 @@ def conc(t):
 
 
 class Obligation:
-    __slots__ = ("name", "kind", "assumptions", "goal", "status", "detail", "time", "key", "case")
+    __slots__ = ("name", "kind", "assumptions", "goal", "status", "detail", "time", "key", "case", "backend")
 
     def __init__(self, name, kind, assumptions, goal, key, case=None):
         self.name = name
@@ -122,6 +122,7 @@ class Obligation:
         self.time = 0.0
         self.key = key
         self.case = case
+        self.backend = "trivial"
 
 
 class Frame:
@@ -365,19 +366,10 @@ class Ctx:
                 ob.status, ob.detail = "unsat", "trivial"
             else:
                 t0 = time.time()
-                r, s = self._check([z3.Not(goal)], self.timeout_ms)
+                status, detail, backend = discharge(self.assumptions, goal, self.timeout_ms, name)
                 ob.time = time.time() - t0
-                if r == z3.unsat:
-                    ob.status = "unsat"
-                elif r == z3.sat:
-                    ob.status = "sat"
-                    try:
-                        ob.detail = model_summary(s.model())
-                    except Exception as e:      # pragma: no cover
-                        ob.detail = f"(model unavailable: {e})"
-                else:
-                    ob.status = "unknown"
-                    ob.detail = s.reason_unknown()
+                self.solver_time += ob.time
+                ob.status, ob.detail, ob.backend = status, detail, backend
         if not z3.is_true(goal_s):
             try:
                 self.assume(goal)
@@ -387,6 +379,59 @@ class Ctx:
 
     def covered(self, name):
         self.cover[name] = True
+
+
+def discharge(assumptions, goal, timeout_ms, name="ob"):
+    """Decide assumptions |= goal.  Returns (status, detail, backend) with status in
+    unsat (discharged) / sat / unknown.  Order: z3 in-process (short budget), then the
+    z3 5.1 command line on the exported SMT-LIB2 text, then cvc5; hard kill on timeout."""
+    import os
+    import subprocess
+    import tempfile
+    s = z3.Solver()
+    quick = min(2000, int(timeout_ms))
+    s.set("timeout", quick)
+    s.add(*assumptions)
+    s.add(z3.Not(goal))
+    r = s.check()
+    if r == z3.unsat:
+        return "unsat", "", "z3-api"
+    if r == z3.sat:
+        try:
+            return "sat", model_summary(s.model()), "z3-api"
+        except Exception as e:     # pragma: no cover
+            return "sat", f"(model unavailable: {e})", "z3-api"
+    text = s.to_smt2()
+    dump = os.environ.get("PYVC_DUMP")
+    d = dump or tempfile.mkdtemp(prefix="pyvc")
+    os.makedirs(d, exist_ok=True)
+    fn = os.path.join(d, "".join(c if c.isalnum() else "_" for c in name)[:50] + f"_{os.getpid()}_{abs(hash(text)) % 10**6}.smt2")
+    with open(fn, "w") as fh:
+        fh.write(text)
+    detail = s.reason_unknown()
+    status, backend = "unknown", "z3-api"
+    secs = max(1, int(timeout_ms / 1000))
+    try:
+        for cmd, be in (["z3-new", f"-T:{secs}", fn], "z3-cli"), (["/usr/bin/cvc5", f"--tlimit={secs * 1000}", fn], "cvc5"):
+            try:
+                p = subprocess.run(cmd, capture_output=True, text=True, timeout=secs + 5)
+                out = (p.stdout or "").strip().splitlines()
+                ans = out[0].strip() if out else ""
+            except subprocess.TimeoutExpired:
+                ans = "timeout"
+            if ans == "unsat":
+                return "unsat", "", be
+            if ans == "sat":
+                return "sat", f"({be} reports sat; no model extracted)", be
+            detail += f"; {be}: {ans[:60]}"
+    finally:
+        if not dump:
+            try:
+                os.remove(fn)
+                os.rmdir(d)
+            except OSError:
+                pass
+    return status, detail, backend
 
 
 _hq_cache = {}
